@@ -21,7 +21,7 @@ RULE = ('T: record type {32,34,39} x table name x 1-3 column mnemonics x 0-3 row
         '1..16 (without 10) with one legal value each, every block alone with each legal (size, code, value) variant, 1-3 channel '
         'blocks over (code, samples, bursts in {1,2,4}) and both dipmeter codes. non-trivial = at least one row / one set block; '
         'outcome = hash of what the reader returned')
-ASSUMPTIONS = ['the first cell of a row (the datum block that names the row) is text, as in LIS-79 tables; integer and float values are enumerated in the other columns',
+ASSUMPTIONS = ['a cell in a column labelled MNEM is text (the library builds its mnemonic map from that column); rows named by integers and floats are enumerated under first-column labels NUMB and TOP',
                'floats are expected to read back as the code 68 value nearest to the written number',
                'tables always carry the table-name block (LrTableWrite cannot write single-parameter tables)',
                'entry block values are the ones LIS-79 gives a meaning to; datum specification block sub-type 0 only']
@@ -185,6 +185,16 @@ def gen_tables(tier, part, of):
         i += 1
         if i % of == part:
             yield {'lrtype': 34, 'name': b'FILM', 'cols': COLS[:3], 'rows': rows}
+    # rows named by numbers (first column not labelled MNEM): every ordered selection with repetition of 1-3 names
+    num_names = [0, 1, 2, 40, -300, 1000.5] + ([65536, -0.25] if tier == 'thorough' else [])
+    for first_label in (b'NUMB', b'TOP '):
+        cols = [first_label, b'NAME', b'LENG']
+        for nrows in (1, 2, 3):
+            for names in itertools.product(num_names, repeat=nrows):
+                i += 1
+                if i % of == part:
+                    rows = [[nm, b'row %d' % k, [1.5 + k, b'FEET']] for k, nm in enumerate(names)]
+                    yield {'lrtype': 34 if i % 2 else 39, 'name': b'TOOL', 'cols': cols, 'rows': rows, 'maxlen': 65535 if i % 3 else 40}
     if tier == 'thorough':
         reduced = [b'', b'ALLO', 300, -129, 1.5, 2 ** 31 - 1, [7, b'IN  '], 0, b'thirteen char']
         for combo in itertools.product(reduced, repeat=6):
